@@ -720,8 +720,60 @@ def _child_save(d, cache_kind, shape, n, flushed, inner_kind='local'):
     os._exit(0)
 
 
+class LineFault:
+    """Raises an exception in the calling thread at the n-th 'line' event inside labtech's cache.py / storage.py (the save path
+    below BaseCache.save), in this process only."""
+
+    def __init__(self, target, exc):
+        import threading
+        self.target, self.exc = target, exc
+        self.count, self.fired, self.where = 0, 0, None
+        self.thread, self.pid = threading.get_ident(), os.getpid()
+        base = os.path.join(os.environ.get('LV_REPO', '/repo'), 'labtech')
+        self.files = (os.path.join(base, 'cache.py'), os.path.join(base, 'storage.py'))
+        self.depth_in_save = 0
+
+    def _local(self, frame, event, arg):
+        if os.getpid() != self.pid:
+            return None
+        if event == 'line' and self.active():
+            n = self.count
+            self.count += 1
+            if self.target is not None and n == self.target:
+                self.fired += 1
+                self.where = f'{os.path.basename(frame.f_code.co_filename)}:{frame.f_lineno} ({frame.f_code.co_name})'
+                raise (KeyboardInterrupt if self.exc == 'interrupt' else Fault)(f'injected at line event {n} of the save path')
+        return self._local
+
+    def active(self):
+        # only while BaseCache.save is on the stack
+        import sys
+        f = sys._getframe(2)
+        while f is not None:
+            if f.f_code.co_name == 'save' and f.f_code.co_filename == self.files[0]:
+                return True
+            f = f.f_back
+        return False
+
+    def _global(self, frame, event, arg):
+        import threading
+        if threading.get_ident() != self.thread or os.getpid() != self.pid:
+            return None
+        return self._local if frame.f_code.co_filename in self.files else None
+
+    def __enter__(self):
+        import sys
+        sys.settrace(self._global)
+        return self
+
+    def __exit__(self, *a):
+        import sys
+        sys.settrace(None)
+
+
 def run_fault(fc):
-    """One save with a fault after fc['n'] effects; returns what is observable afterwards."""
+    """One save with a fault after fc['n'] effects (or at line event fc['line'] of the save path); returns what is observable
+    afterwards."""
     d = tempfile.mkdtemp(dir=subdir('fault'))
     try:
         inner = _inner_storage(d, fc.get('inner', 'local'))
@@ -746,11 +798,16 @@ def run_fault(fc):
             st = FaultyStorage(inner, fail_after=fc['n'], exc=fc.get('exc', 'exception'), commit_at_close=bool(fc.get('commit_at_close')),
                                root=os.path.join(d, 's'))
             lab = Lab(storage=st, continue_on_failure=True, runner_backend='serial', notebook=False)
+            import contextlib
+            lf = LineFault(fc['line'], fc.get('exc', 'exception')) if 'line' in fc else None
             try:
-                res = lab.run_tasks([t], bust_cache=True, disable_progress=True, disable_top=True)
+                with (lf if lf is not None else contextlib.nullcontext()):
+                    res = lab.run_tasks([t], bust_cache=True, disable_progress=True, disable_top=True)
                 reported_failed = t not in res
             except KeyboardInterrupt:
                 reported_failed = True          # the interrupt went through run_tasks: nothing was reported as done
+            if lf is not None:
+                fc['_line_events'], fc['_fired'], fc['_where'] = lf.count, lf.fired, lf.where
         lab2 = Lab(storage=inner, runner_backend='serial', notebook=False)
         cached = bool(lab2.is_cached(t))
         loaded = None
@@ -807,7 +864,7 @@ def run_faults(prop, report, tier, seed, replay=None):
         for shape in (RESULT_SHAPES if cache == 'pickle' else ['small']):
             traces[(cache, shape)] = save_counts(cache, shape)
     if replay:
-        fcs = [replay['input']['fault']]
+        fcs = [replay['input']['fault']] if 'line' not in replay['input'].get('fault', {}) else []
     else:
         for (cache, shape), trace in traces.items():
             if crash and shape == 'unpicklable':
@@ -859,6 +916,44 @@ def run_faults(prop, report, tier, seed, replay=None):
         if fc['n'] < len(trace) or crash:
             terms.append(emit_fcase(fc, obs, wm, wd))
             kept.append((fc, obs))
+    # every executed line of the save path (cache.py / storage.py while BaseCache.save is on the stack): an exception, or a
+    # KeyboardInterrupt, raised there
+    if not crash and (replay is None or 'line' in replay['input'].get('fault', {})):
+        lfcs = [replay['input']['fault']] if replay else []
+        if not replay:
+            # (results that pickle: with an unpicklable result the save fails by itself, and an injected exception would be a second fault)
+            for cache, shape in (('pickle', 'small'), ('pickle', 'multiframe'), ('json', 'small')):
+                for overwrite, old in ((False, None), (True, 'small')):
+                    dry = dict(cache=cache, shape=shape, n=10 ** 9, overwrite=overwrite, old=old, crash=False, flushed=True, line=None)
+                    run_fault(dry)
+                    total = dry.get('_line_events', 0)
+                    dist[f'save_path_line_events[{cache},{shape},{"overwrite" if overwrite else "first"}]'] = total
+                    targets = list(range(total)) if (tier == 'thorough' or total <= 40) else sorted(rng.sample(range(total), 40))
+                    for k, tgt in enumerate(targets):
+                        lfcs.append(dict(cache=cache, shape=shape, n=10 ** 9, overwrite=overwrite, old=old, crash=False, flushed=True, line=tgt,
+                                         exc='interrupt' if k % 3 == 2 else 'exception'))
+        for fc in lfcs:
+            fc = {k: v for k, v in fc.items() if not k.startswith('_')}
+            obs = run_fault(fc)
+            dist['line_faults'] += 1
+            dist[f"line_fault: cached={obs['cached']},loaded={obs['loaded']}"] += 1
+            where = fc.get('_where')
+            bad = None
+            if obs['loaded'] == 3:
+                bad = ('loads-wrong-value', 'the entry loads, but as a value that is neither the old nor the new result')
+            elif obs['cached'] and obs['loaded'] is None:
+                bad = ('cached-but-unloadable', f"the task is reported as cached but loading fails: {obs['load_error']}")
+            elif obs['listed'] is True and obs['loaded'] is None:
+                bad = ('listed-but-unloadable', 'cached_tasks lists the task but it cannot be loaded')
+            elif isinstance(obs['listed'], str):
+                bad = ('cached-tasks-raised', f"cached_tasks {obs['listed']}")
+            elif fc.get('_fired') and obs['reported_failed'] is False and fc['shape'] != 'unpicklable':
+                bad = ('failure-not-reported', 'an exception was raised inside the save but the task was returned as successful')
+            if bad:
+                report.violation(f'{prop}:{bad[0]}', f"{bad[1]} [{'KeyboardInterrupt' if fc.get('exc') == 'interrupt' else 'exception'} raised at {where} "
+                                                    f"(line event {fc['line']} of the save path); cache={fc['cache']}, result={fc['shape']}, "
+                                                    f"{'overwrite' if fc['overwrite'] else 'first save'}]",
+                                 dict(fault={k: v for k, v in fc.items() if not k.startswith('_')}, observed=obs, where=where))
     try:
         bad = coq_failing(f'corr_{prop}_fault', CACHE_IMPORTS, terms, 'check_fcase save_cleanup_src save_order_src')
     except CoqError as e:
@@ -875,7 +970,9 @@ def run_faults(prop, report, tier, seed, replay=None):
               'shape (small, multi-frame, unpicklable at depth) x cache format (PickleCache, a JSON BaseCache) x first save / '
               'overwrite' + (' x buffered data lost / flushed; the writer is a forked process ended by os._exit' if crash else
                              '; the fault is an exception raised by the storage, the save runs inside the real run_or_load_task') +
-              '; quick samples the write-call boundaries; non-trivial = at least one effect completed'),
+              '; quick samples the write-call boundaries; non-trivial = at least one effect completed' +
+              ('' if crash else '; plus an exception / KeyboardInterrupt raised at executed lines of cache.py and storage.py below BaseCache.save '
+                                '(results that pickle; first save and overwrite; quick: 40 line events per configuration, thorough: all)')),
         distribution=dict(sorted(dist.items())),
         samples=[dict(fault=f, observed=o) for f, o in kept[:3]],
         effect_traces={f'{k[0]}/{k[1]}': v if len(v) < 30 else v[:10] + ['...'] + v[-6:] for k, v in traces.items()})
